@@ -327,9 +327,10 @@ impl Write for TraceWriter {
     fn flush(&mut self) -> io::Result<()> { Ok(()) }
 }
 
-fn corrupt_one<T: Serialize + Deserialize, S: Src>(s: &mut S, v: &T, what: &str) {
+fn corrupt_one<T: Serialize + Deserialize, S: Src>(s: &mut S, v: &T, what: &str) { corrupt_one_at(s, v, 0, what) }
+fn corrupt_one_at<T: Serialize + Deserialize, S: Src>(s: &mut S, v: &T, ver: u32, what: &str) {
     let mut tw = TraceWriter { buf: Vec::new(), eights: Vec::new() };
-    assert!(savefile::Serializer::bare_serialize(&mut tw, 0, v).is_ok());
+    assert!(savefile::Serializer::bare_serialize(&mut tw, ver, v).is_ok());
     let good = tw.buf.clone();
     let mut input = good.clone();
     match s.below(3) {
@@ -346,30 +347,59 @@ fn corrupt_one<T: Serialize + Deserialize, S: Src>(s: &mut S, v: &T, what: &str)
         1 => { let k = s.below(good.len() + 1); input.truncate(k); }
         _ => { let extra = [0u8, 1, 255][s.below(3)]; input.push(extra); if s.bool() { input.push(extra); } }
     }
-    let mut rd: &[u8] = &input[..];
-    // A corruption can shift the framing so that data bytes are read as a length: an absurd declared length may end in
-    // an allocation failure, which the property excludes ("apart from genuine out-of-memory on absurd declared
-    // lengths"). Only those two panics are tolerated, every other panic fails the case.
-    let r = match std::panic::catch_unwind(std::panic::AssertUnwindSafe(|| { let r = savefile::Deserializer::bare_deserialize::<T>(&mut rd, 0); (r, rd.len()) })) {
-        Ok((r, left)) => { rd = &input[input.len() - left..]; r }
-        Err(e) => {
-            let msg = e.downcast_ref::<String>().cloned().or(e.downcast_ref::<&str>().map(|x| x.to_string())).unwrap_or_default();
-            if msg.contains("Failed to allocate") || msg.contains("capacity overflow") { return; }
-            panic!("C06: loading corrupted bytes panicked: {} [{}] input {:?}", msg, what, input);
+    // A corruption can shift the framing so that data bytes are read as a length; an absurd declared length may end in
+    // an allocation failure, which ABORTS the process (handle_alloc_error) and which the property excludes ("apart
+    // from genuine out-of-memory on absurd declared lengths"). The load therefore runs in a forked child: exit 0 = all
+    // assertions held, exit 101 = an assertion failed or the library panicked (message passed back through a file),
+    // SIGABRT = allocation failure (tolerated), anything else fails the case.
+    let msg_path = std::env::temp_dir().join(format!("verif_native_msg_{}", std::process::id()));
+    let pid = unsafe { libc::fork() };
+    assert!(pid >= 0, "fork failed");
+    if pid == 0 {
+        // no core dump for the tolerated abort
+        unsafe { let lim = libc::rlimit { rlim_cur: 0, rlim_max: 0 }; libc::setrlimit(libc::RLIMIT_CORE, &lim); }
+        let r = std::panic::catch_unwind(std::panic::AssertUnwindSafe(|| {
+            let mut rd: &[u8] = &input[..];
+            let r = savefile::Deserializer::bare_deserialize::<T>(&mut rd, ver);
+            if let Ok(x) = r {
+                let consumed = input.len() - rd.len();
+                let mut re: Vec<u8> = Vec::new();
+                assert!(savefile::Serializer::bare_serialize(&mut re, ver, &x).is_ok(), "C06: a loaded value can be written again [{}]", what);
+                assert!(re.len() <= consumed, "C06: the loaded value claims more content ({} bytes when written) than the {} input bytes consumed could have encoded [{}] input {:?}", re.len(), consumed, what, input);
+            }
+        }));
+        let code = match r {
+            Ok(()) => 0,
+            Err(e) => {
+                let msg = e.downcast_ref::<String>().cloned().or(e.downcast_ref::<&str>().map(|x| x.to_string())).unwrap_or_default();
+                if msg.contains("Failed to allocate") || msg.contains("capacity overflow") { 0 } else {
+                    let _ = std::fs::write(&msg_path, format!("C06: loading corrupted bytes failed: {} [{}] input {:?}", msg, what, input));
+                    101
+                }
+            }
+        };
+        unsafe { libc::_exit(code) };
+    }
+    let mut status: libc::c_int = 0;
+    let w = unsafe { libc::waitpid(pid, &mut status, 0) };
+    assert!(w == pid, "waitpid failed");
+    if libc::WIFEXITED(status) {
+        if libc::WEXITSTATUS(status) != 0 {
+            let msg = std::fs::read_to_string(&msg_path).unwrap_or_default();
+            let _ = std::fs::remove_file(&msg_path);
+            panic!("{}", msg);
         }
-    };
-    if let Ok(x) = r {
-        let consumed = input.len() - rd.len();
-        let mut re: Vec<u8> = Vec::new();
-        assert!(savefile::Serializer::bare_serialize(&mut re, 0, &x).is_ok(), "C06: a loaded value can be written again [{}]", what);
-        assert!(re.len() <= consumed, "C06: the loaded value claims more content ({} bytes when written) than the {} input bytes consumed could have encoded [{}] input {:?}", re.len(), consumed, what, input);
+    } else if libc::WIFSIGNALED(status) && libc::WTERMSIG(status) == libc::SIGABRT {
+        // allocation failure on an absurd declared length (tolerated by the property)
+    } else {
+        panic!("C06: loading corrupted bytes killed the process (status {}) [{}] input {:?}", status, what, input);
     }
 }
 
 /// C06 (bounded): corrupted encodings of library containers never panic and never yield over-long results.
 pub fn malformed_library<S: Src>(s: &mut S) {
     use std::collections::*;
-    match s.below(24) {
+    match s.below(26) {
         0 => corrupt_one(s, &"ab".to_string(), "String"),
         1 => corrupt_one(s, &"é".to_string(), "String (2-byte char)"),
         2 => corrupt_one(s, &vec![1u16, 2], "Vec<u16>"),
@@ -393,6 +423,22 @@ pub fn malformed_library<S: Src>(s: &mut S) {
         20 => corrupt_one(s, &[1u8, 2].into_iter().collect::<indexmap::IndexSet<u8>>(), "IndexSet<u8>"),
         21 => corrupt_one(s, &std::net::IpAddr::V4(std::net::Ipv4Addr::new(1, 2, 3, 4)), "IpAddr"),
         22 => corrupt_one(s, &std::time::Duration::new(5, 7), "Duration"),
-        _ => corrupt_one(s, &vec![vec![1u8], vec![]], "Vec<Vec<u8>>"),
+        23 => corrupt_one(s, &vec![vec![1u8], vec![]], "Vec<Vec<u8>>"),
+        24 => {
+            // a stored schema section (library format 2) with a trait-object node: what `load` parses before the payload
+            use savefile::{AbiMethod, AbiMethodArgument, AbiMethodInfo, AbiTraitDefinition, ReceiverType, Schema, SchemaPrimitive};
+            let def = AbiTraitDefinition {
+                name: "T".to_string(),
+                methods: vec![AbiMethod { name: "m".to_string(), info: AbiMethodInfo {
+                    return_value: Schema::Primitive(SchemaPrimitive::schema_u8), receiver: ReceiverType::Shared,
+                    arguments: vec![AbiMethodArgument { schema: Schema::Primitive(SchemaPrimitive::schema_u32) }], async_trait_heuristic: false } }],
+                sync: true, send: true,
+            };
+            corrupt_one_at(s, &Schema::Trait(false, def), 2, "Schema::Trait (schema section, format 2)")
+        }
+        _ => {
+            let sch = savefile::get_schema::<(u8, Vec<Option<String>>, [u16; 2])>(0);
+            corrupt_one_at(s, &sch, 2, "Schema of (u8,Vec<Option<String>>,[u16;2]) (schema section, format 2)")
+        }
     }
 }
